@@ -5,7 +5,7 @@ from .common import declare
 RULES = ['SINGLE-CONSUMER', 'SERIAL-DRAIN', 'FIFO-END', 'SWAP-ATOMIC', 'ATOMIC-RMW', 'AWAITABLE-SHARE', 'EMIT-SIG', 'BOUND-PLUMB', 'NOTIFY-ON-FREE', 'ARM-CANCEL',
          'APPEND-THEN-TEST', 'ARM-ON-FIRST', 'AWAITABLE-RESULT', 'PROPAGATE', 'EAGER-UPDATE', 'CANCEL-ONLY-TIMERS']
 FLOORS = {'SINGLE-CONSUMER': 4, 'SERIAL-DRAIN': 6, 'FIFO-END': 10, 'SWAP-ATOMIC': 6, 'ATOMIC-RMW': 1, 'AWAITABLE-SHARE': 1,
-          'EMIT-SIG': 30, 'CANCEL-ONLY-TIMERS': 1}
+          'EMIT-SIG': 30, 'CANCEL-ONLY-TIMERS': 1, 'AWAITABLE-RESULT': 1}
 
 META = {
     'level': "Static analysis of the cooperative-scheduling discipline of every asynchronous node: one consumer coroutine per "
